@@ -12,6 +12,8 @@ def check(rep):
     PR.rule_key_order_independent(ctx, rid="C09.ORDER-INDEPENDENT")
     PR.rule_locals_shadow_fields(ctx, "C09.FIELDS-NOT-SHADOWED", consequence="the assignment no longer varies with that splitter's value")
     ER.rule_call_forwards(ctx)
+    PR.rule_recompile_like_fresh(ctx, "C09.RECOMPILED-LIKE-FRESH", consequence="a field of an earlier text (no splitter of the current "
+                                 "one: a condition field or an extra keyword argument) then enters the key")
     ER.rule_value_keyed_caches(ctx, rid="C09.NO-VALUE-KEYED-CACHE", modules={"binning/binning.py", "experiment_evaluator.py"})
     ER.rule_installed_function(ctx, rid="C09.ID-ONLY-NAME", strict=False, facets=("namespace", "installed"))
     ER.rule_whole_key(ctx, rid="C09.WHOLE-KEY")
